@@ -37,31 +37,6 @@ func c02pop(b byte) byte {
 	return n
 }
 
-func H_C02_ntlm_deskey() {
-	key := vBytes("key", 7)
-	out, err := createDesKey(key)
-	vCheck(err == nil && len(out) == 8, "ntlm/deskey/size")
-	if len(out) != 8 {
-		return
-	}
-	want := c02spread(key)
-	for i := 0; i < 8; i++ {
-		vCheck(out[i]&0xFE == want[i], "ntlm/deskey/seven-key-bits-in-high-positions")
-	}
-	// last, a recorded finding would otherwise restrict the checks above
-	for i := 0; i < 8; i++ {
-		vCheck(c02pop(out[i])&1 == 1, "ntlm/deskey/odd-parity")
-	}
-	vCover("end")
-}
-
-func H_C02_ntlm_desencrypt() {
-	hash := vBytes("hash", 16)
-	ch := vBytes("challenge", 8)
-	vCheck(vBytesEq(desEncrypt(hash, ch), c02DESL(hash, ch)), "ntlm/desEncrypt-equals-DESL")
-	vCover("end")
-}
-
 func c02ascii(tag string, n int) (string, []byte, []byte) {
 	s := vString(tag, n)
 	var asIs, upper []byte
@@ -79,44 +54,6 @@ func c02hmac(key []byte, parts ...[]byte) []byte {
 		h.Write(p)
 	}
 	return h.Sum(nil)
-}
-
-func H_C02_ntlm_v2() {
-	user, _, userUp16 := c02ascii("user", vParam("ulen"))
-	domain, dom16, _ := c02ascii("domain", vParam("dlen"))
-	pw, pw16, _ := c02ascii("pw", vParam("plen"))
-	nt := refMD4(pw16)
-	ntowf := c02hmac(nt[:], userUp16, dom16)
-	vCheck(vBytesEq(ntowfv2(user, pw, domain), ntowf), "ntlm/ntowfv2")
-	ch := &ChallengeMessage{}
-	copy(ch.ServerChallenge[:], vBytes("server", 8))
-	ch.TargetInfo = vBytes("ti", vParam("tilen"))
-	ch.TargetName = vBytes("tn", vParam("tnlen")) // the server's name must not leak into the key derivation: the domain is used as supplied
-	lmResp, ntResp, err := calculateNTLMv2Response(ch, user, pw, domain)
-	vCheck(err == nil, "ntlm/v2/ok")
-	vCheck(len(ntResp) >= 16+28, "ntlm/v2/response-has-proof-and-blob-header")
-	if err != nil || len(ntResp) < 44 {
-		return
-	}
-	temp := ntResp[16:]
-	vCheck(vBytesEq(ntResp[:16], c02hmac(ntowf, ch.ServerChallenge[:], temp)), "ntlm/v2/NTProofStr-verifies-under-NTOWFv2")
-	vCheck(temp[0] == 1 && temp[1] == 1, "ntlm/v2/blob/resp-type")
-	for i := 2; i < 8; i++ {
-		vCheck(temp[i] == 0, "ntlm/v2/blob/reserved-zero")
-	}
-	for i := 24; i < 28; i++ {
-		vCheck(temp[i] == 0, "ntlm/v2/blob/reserved3-zero")
-	}
-	vCheck(len(temp) == 28+len(ch.TargetInfo)+4, "ntlm/v2/blob/length")
-	if len(temp) == 28+len(ch.TargetInfo)+4 {
-		vCheck(vBytesEq(temp[28:28+len(ch.TargetInfo)], ch.TargetInfo), "ntlm/v2/blob/target-info-copied")
-	}
-	// LMv2 = HMAC-MD5(NTOWFv2, server || client) || client
-	vCheck(len(lmResp) == 24, "ntlm/lmv2/length")
-	if len(lmResp) == 24 {
-		vCheck(vBytesEq(lmResp[:16], c02hmac(ntowf, ch.ServerChallenge[:], lmResp[16:])), "ntlm/lmv2/verifies")
-	}
-	vCover("end")
 }
 
 // The responses inside the AUTHENTICATE message built from a challenge: with extended session security the NT response
